@@ -20,12 +20,13 @@ def run(ctx):
             ctx.corr(hx, ["hist", "--n", "1500", "--len", "40", "--conc", "64", "--multi-ops", "300000", "--windows", "12"], cases_name="cases%d.v" % k)
         ctx.seed -= 6000
     else:
-        ctx.corr(hx, ["hist", "--n", "900", "--len", "30"])
+        ctx.corr(hx, ["hist", "--n", "1000", "--len", "30"])
     ctx.assumptions += [
         "guard no_wrap: mark + interval < 2^64 for every lease (uint64 wrap-around is outside the property)",
         "one live Sequence object per key at a time; a crash is modelled as a store call that fails (after the read) or is applied and then reported failed (after the write), after which the object is dropped",
         "concurrent callers are serialised by the object's mutex: the model treats Next/Release on one object as atomic; this is checked on the implementation by 32 free-running runs (distinct, per-caller increasing) and by starting a second Next/Release at EVERY store-operation boundary of the first caller's operations (exhaustive per generated op list; crash + restart afterwards; no number may repeat)",
         "store configurations (round 4): 2/5 of the histories run on a bare root mapdb, 1/5 each on (a) nested mapdb realm views (WithRealm / WithExtendedRealm chains of depth 1-3, every realm slice with spare capacity, sibling views - also the same realm opened twice - opened between the events, other Sequences with other keys on the same view and on sibling views used between the events), (b) flushkv over the write-buffering backend, (c) realm views of (b). The model is unchanged: its `disk` is the durable mark; environment events are invisible to it (they must not influence the sequence). The store below the Sequence is assumed to keep its contract (C04/C05 own it); what is checked here is the consequence of a breach for sequence numbers",
+        "round 4b: a 5th configuration family (1/6 of the histories, 2 shapes of conc, windows) puts a kvstore/debug tracing wrapper into the stack (nil callback, or a counting callback with the filter all / none / only Get / only Set / everything but Set; at the top store, at the final view, or between flushkv and the backend; alone and on realm / flushkv configurations); environment events also include maintenance by the owner of a sibling view whose realm does not contain the sequence's key (fill, Iterate, DeletePrefix with the empty and a non-empty prefix, Clear, batch Commit with deletes), which a store that keeps realms apart cannot let reach the mark",
         "Flush faults: a Flush that fails after the Set was accepted is the model's FailSet / crash-after-read / failing Release (nothing became durable; the call must report the error). On the backend variant whose failed Flush KEEPS the buffer (reads see the buffer, the durable mark stays behind) the history stops the process (power loss) right after the failed call, because the model has a single mark; on the variant that DROPS the buffer the object lives on. Every abandon / crash / restart of a history on a buffering store is a power loss; 3/4 of the random histories end with power loss + restart + one Next so that a reservation that was not durable shows as a reused number",
         "other sequences are judged by the property itself (strictly increasing over all their lifetimes) and by isolation: each starts at a mark in a number range of its own (k * 2^40) and must stay there; the durable root may hold only the full keys of the sequences of the run",
         "concurrent families on every configuration: several callers on the sequence under test with other sequences and a sibling-opening goroutine beside it; 7 runs of 7-12 sequences with different keys hammering one view and its sibling views (interval 1-2, 100000 calls each); on buffering stores every k-th Flush fails and a final phase in which every Flush fails precedes the power loss (failed Flush keeps the buffer there: with concurrent writers a dropped buffer would lose other writers' accepted Sets); the store-boundary `windows` family additionally starts an environment intruder (open a sibling view, draw from sequences on it and on the same view) at every boundary incl. before/after the backend's Set and Flush",
